@@ -41,6 +41,8 @@ int main()
     bad += trial("valid", "8=FIX.4.2\0019=" + std::to_string(body.size()) + "\001" + body + "10=000\001", false);
     bad += trial("non-numeric first BodyLength byte", "8=FIX.4.2\0019=A2\001" + std::string(172, 'x') + "10=000\001", true);
     bad += trial("2500-byte junk with no SOH after 8=", "8=" + std::string(11, 'y') + std::string(2500, '7') + "\001" + std::string(200, 'z'), true);
+    // R15.4 no-wrap: 2^32 + 5 as BodyLength wraps to 5; the five bytes `35=0|` plus a 7-byte checksum field make a "valid" frame
+    bad += trial("BodyLength 4294967301 (wraps to 5)", std::string("8=FIX.4.2\0019=4294967301\001") + "35=0\001" + "10=000\001", true);
     std::cout << (bad ? "DEFECT" : "HOLDS") << std::endl;
     return bad ? 1 : 0;
 }
